@@ -11,6 +11,8 @@ env = dict(os.environ, GOFLAGS="-mod=mod", GOPROXY="off", GOSUMDB="off", GOTOOLC
 def sh(cmd, **kw):
     return subprocess.run(cmd, shell=True, cwd=wt, env=env, capture_output=True, text=True, **kw)
 meta = json.loads((src / "meta.json").read_text())
+import re
+meta["demo_cmd"] = re.sub(r"cd\s+(<repo>|&lt;repo&gt;|/tmp/wt-C\d+)\s*(&&|&amp;&amp;)\s*", "", meta["demo_cmd"])
 sh("git checkout -- . && git clean -fdq")
 demo = src / Path(meta["demo_file"]).name
 dest = wt / meta["demo_dest"]
